@@ -4,7 +4,7 @@ most easily get out of step."""
 import json
 
 import vlib
-from checks import e1
+from checks import c13, e1
 
 
 def run(ctx):
@@ -20,6 +20,10 @@ def run(ctx):
         I("small", 2, "PTN", alloc="ledgerrealloc", L=3, opts=["--few-ranges"]),
     ]
     cov = e1.explore(ctx, matrix, ["C06"])
+    # buffers that change owner through swap2: pairs of heap-capable operands over the exact-count ledger allocator
+    pairs = [("sv2", "sv2", "NTR"), ("sv2", "vec32", "TR"), ("vec8", "vec32", "TC4"), ("sv5_16", "vec8", "TR")] if q else \
+        [(a, b, ("TC4", "TR", "NTR")[(x + y) % 3]) for x, a in enumerate(("vec32", "vec8", "sv2", "sv3_8", "sv5_16")) for y, b in enumerate(("vec32", "vec8", "sv2", "sv3_8", "sv5_16"))]
+    cov = e1.merge_cov(cov, e1.explore(ctx, [c13.inst(a, b, el, L=4 if q else 5) for a, b, el in pairs], ["C06"], engine="E1s", eng=c13.ENG))
     # direct grid over BasicAllocatorWrapper::reallocate (old capacity x new capacity x live count x element category)
     binp = vlib.build("grid_c06.cpp", ["-std=c++17", "-O1", "-g1", "-w", "-fsanitize=address"], "g06")
     rc, out, err = vlib.run([binp], timeout=300, env={"ASAN_OPTIONS": "detect_leaks=1"})
